@@ -19,7 +19,7 @@ use uom::si::time::second;
 pub fn def() -> PropDef {
     PropDef {
         id: "C13",
-        rule: "inputs: calibrated signal sets from (a) hit-pattern events with neighbour induction and per-wire waveform lengths that differ inside a block, (b) block events: one contiguous wire block of every length 1..=255 at generated starts (incl. blocks straddling the wire 255/0 seam), two blocks separated by 1..4 empty wires, (c) forward-model tracks, (d) the full ring of 256 wires as a separate, separately counted stream; transformations: all 31 rotations by whole pad columns (wire w -> w + 8k, pad column c -> c + k, applied to the calibrated signals through the event_from_signals hook, so nothing is re-digitised) and the mirror row r -> 575 - r; oracle: rotation - the multiset of avalanches mapped back by -8k wires equals the original multiset with t, z and both amplitudes compared by bits; mirror - same wires, times and amplitudes by bits and z' = -z within 1e-9 m; events in which two avalanches of one (column, time bin) have equal amplitudes are set aside for the mirror (pairing order of equal keys is unspecified); non-trivial = >= 10 avalanches and a rotation that moves a wire block across the seam, or a mirror that moves a hit by >= 10 rows; distinct by case hash",
+        rule: "inputs: calibrated signal sets from (a) hit-pattern events with neighbour induction and per-wire waveform lengths that differ inside a block, (b) block events: one contiguous wire block of every length 1..=255 at generated starts (incl. blocks straddling the wire 255/0 seam), two blocks separated by 1..4 empty wires whose waveform lengths differ by up to a factor of three, (c) forward-model tracks, (d) the full ring of 256 wires as a separate, separately counted stream; transformations: all 31 rotations by whole pad columns (wire w -> w + 8k, pad column c -> c + k, applied to the calibrated signals through the event_from_signals hook, so nothing is re-digitised) and the mirror row r -> 575 - r; oracle: rotation - the multiset of avalanches mapped back by -8k wires equals the original multiset with t, z and both amplitudes compared by bits; mirror - same wires, times and amplitudes by bits and z' = -z within 1e-9 m; events in which two avalanches of one (column, time bin) have equal amplitudes are set aside for the mirror (pairing order of equal keys is unspecified); non-trivial = >= 10 avalanches and a rotation that moves a wire block across the seam, or a mirror that moves a hit by >= 10 rows; distinct by case hash",
         assumptions: &[
             "events are built from calibrated signals with alpha_g_physics::verif_hooks::event_from_signals (feature verif-hooks); avalanches() itself is the public API",
             "KNOWN FINDING D4: when all 256 wires carry data the induction matrix is banded instead of circulant and most rotations change the avalanche list; that class is generated separately and reported as KNOWN-FINDING, every other occupancy class stays under the strict check",
@@ -56,7 +56,11 @@ impl SymCase {
                 let pr = pad_response();
                 let mut w: HashMap<usize, Vec<f64>> = HashMap::new();
                 let mut p: HashMap<(usize, usize), Vec<f64>> = HashMap::new();
+                let event_bins = bins;
                 for (bi, &(start, len)) in blocks.iter().enumerate() {
+                    // separate blocks may have waveforms of quite different lengths
+                    // (the pads keep the event's length)
+                    let bins = if blocks.len() > 1 { ((event_bins as f64 * [1.0, 0.6, 0.35][(mix(*seed ^ 0xB10C, bi as u64) % 3) as usize]) as usize).max(60) } else { event_bins };
                     for k in 0..len.min(256) as usize {
                         let wire = (start as usize + k) % 256;
                         let s = w.entry(wire).or_insert_with(|| vec![0.0; bins]);
@@ -77,9 +81,9 @@ impl SymCase {
                                 let row = 1 + ((r >> 12) % 574) as usize;
                                 let pamp = 150.0 + ((r >> 24) % 9000) as f64 / 10.0;
                                 for (dr, f) in [(-1i64, 0.31 + (r % 97) as f64 / 300.0), (0, 1.0), (1, 0.27 + (r % 89) as f64 / 300.0)] {
-                                    let ps = p.entry((col, (row as i64 + dr) as usize)).or_insert_with(|| vec![0.0; bins]);
+                                    let ps = p.entry((col, (row as i64 + dr) as usize)).or_insert_with(|| vec![0.0; event_bins]);
                                     for (j, v) in pr.iter().enumerate() {
-                                        if bin + j >= bins {
+                                        if bin + j >= event_bins {
                                             break;
                                         }
                                         ps[bin + j] += pamp * f * v;
